@@ -163,17 +163,25 @@ type c12Srv struct {
 
 func newC12Srv(caseNo int, role string) *c12Srv {
 	id := fmt.Sprintf("c12-%d-%s", caseNo, role)
+	if role == "r" || role == "p" {
+		// a RESTARTED server x: same server id (it is the coordinator of the
+		// groups x coordinates, so what it hands out is observable), own data dir
+		id = fmt.Sprintf("c12-%d-x", caseNo)
+	}
 	dir := vfWorkDir("c12fsm")
 	cfg := NewDefaultConfig()
 	cfg.Clustering.ServerID = id
 	cfg.Clustering.Namespace = "c12"
 	cfg.DataDir = dir
 	cfg.LogSilent = true
+	cfg.LogRecovery = true // finishedRecovery would otherwise un-silence the logger
 	cfg.Telemetry.Enabled = false
 	cfg.Groups.ConsumerTimeout = time.Hour // no liveness timer ever fires
 	cfg.Groups.CoordinatorTimeout = time.Hour
 	sv := &c12Srv{role: role, id: id, dir: dir, s: New(cfg), gate: &c12Gate{}}
-	c12Gates.Store(id, sv.gate)
+	if role != "r" && role != "p" {
+		c12Gates.Store(id, sv.gate)
+	}
 	return sv
 }
 
@@ -184,7 +192,9 @@ func (sv *c12Srv) cleanup() {
 	sv.gate.release()
 	sv.quiesce()
 	sv.s.Stop() // nolint: errcheck
-	c12Gates.Delete(sv.id)
+	if sv.role != "r" && sv.role != "p" {
+		c12Gates.Delete(sv.id)
+	}
 	os.RemoveAll(sv.dir)
 }
 
@@ -427,6 +437,14 @@ type c12FsmRun struct {
 	srv    map[string]*c12Srv
 	failed bool
 	yOut   bool // server y showed a violation and is not driven any further
+	// recovery instances (restarted incarnations of server x, see runRecovery)
+	replayK        int  // r applies ops[0:replayK] with recovered=true, then finishedRecovery
+	snapK, snapJ   int  // p: Restore(snapshot of x after ops[0:snapK]), ops[snapK:snapJ] recovered=true, then started
+	rOut, pOut     bool // not driven any further after a violation
+	pNoCompare     bool // p's assignments already differed from x (history dependence): only the single-server oracle and the epoch are judged from then on
+	recCompared    map[string]int
+	recMultiStarts map[string]int
+	snapDiffers    map[string]int
 	// observations
 	holds, overtaken, checks, compared, served, absent int
 	symptoms                                           map[string]int
@@ -441,6 +459,9 @@ func (r *c12FsmRun) witness(step int, extra map[string]interface{}) map[string]i
 	w := map[string]interface{}{
 		"history": c12FsmHistoryString(r.ops), "after_operation": r.ops[step].String(), "case": r.caseNo,
 		"note": "every server applies the history through Server.apply with the shown Raft indexes; x and z wait for the stream-deletion notification goroutine after every operation, y holds it at hook meta.streamDeletedAsync where marked",
+	}
+	if r.srv["r"] != nil {
+		w["recovery_instances"] = r.recoveryNote()
 	}
 	for k, v := range extra {
 		w[k] = v
@@ -619,6 +640,9 @@ func (r *c12FsmRun) run() {
 				}
 			}
 		}
+		// restarted incarnations of x (c12_recovery_test.go)
+		r.stepReplay(step, op, ref)
+		r.stepSnapshot(step, op, ref)
 		// server y (no longer driven once it has shown a violation: everything
 		// after that would be a consequence of the same event)
 		if r.yOut {
@@ -707,7 +731,8 @@ func TestVerifC12Fsm(t *testing.T) {
 		}
 		rng := kit.NewRNG(seeds[i])
 		r := &c12FsmRun{rep: rep, caseNo: i, ops: c12GenHistory(rng), srv: map[string]*c12Srv{}}
-		for _, role := range []string{"x", "z", "y"} {
+		r.planRecovery(rng)
+		for _, role := range []string{"x", "z", "y", "r", "p"} {
 			r.srv[role] = newC12Srv(i, role)
 		}
 		r.run()
@@ -715,6 +740,18 @@ func TestVerifC12Fsm(t *testing.T) {
 			c12FailedCases.Add(1)
 		}
 		nontrivial := r.overtaken > 0
+		for k, v := range r.recCompared {
+			rep.Count("restarted_server_group_states_compared_with_x:"+k, int64(v))
+		}
+		for k, v := range r.recMultiStarts {
+			rep.Count("restarted_server:"+k, int64(v))
+			if v > 0 && k != "replay:groups_started" && k != "snapshot:groups_started" {
+				nontrivial = true
+			}
+		}
+		for k, v := range r.snapDiffers {
+			rep.Count("snapshot_restored_server_assignments_differ_from_x:"+k, int64(v))
+		}
 		holds.Add(int64(r.holds))
 		overtaken.Add(int64(r.overtaken))
 		for k, v := range r.symptoms {
